@@ -1295,6 +1295,16 @@ def rule_T1(ctx):
                 failures.append(r)
             inst = f"while {norm(w.test)}"
             if verdict:
+                # the schemas reason about the normal back-edge paths; a way back to the loop head through an exception handler
+                # (`except ..: continue`, or a handler that falls through to the end of the body) is an extra back edge no schema
+                # has looked at
+                normal = {tuple(p_) for k_, p_, e_ in cfg.iteration_paths(lp) if k_ == "back"}
+                extra = [p_ for k_, p_, e_ in cfg.iteration_paths(lp, skip_labels=()) if k_ == "back" and tuple(p_) not in normal and any(l_ == "exc" for n_, l_ in p_)]
+                if extra and verdict[1] not in ("LEN-GROW",):
+                    lines_ = sorted({getattr(cfg.nodes[n_].ast, "lineno", 0) for n_, l_ in extra[0] if cfg.nodes[n_].ast is not None})
+                    verdict = None
+                    failures.append((False, "HANDLER-BACK-EDGE", f"the loop is re-entered through an exception handler (lines {lines_}): on that path nothing is proven to advance"))
+            if verdict:
                 schemas_used[f"{m.path}:{w.lineno}"] = verdict[1]
                 ctx.ob("T1", w, f"loop `{inst}` terminates: schema {verdict[1]}", True, verdict[2], inst=inst)
             else:
